@@ -270,6 +270,11 @@ def b_len(ex, vals, s, e):
         return [X.Res(s, SV(INT, l_len(v.t.d.keys_t, d_keys(v.t.d, v.z))))]
     if isinstance(v.t, TTuple):
         return [X.Res(s, sv_int(len(v.z)))]
+    if isinstance(v.t, TOpt):
+        # len(None) / len(-1) raises TypeError; otherwise the length of the value
+        bad = s.copy().assume(v.t.dt.is_none(v.z)).note('L%s: len() of a value that is not a collection' % e.lineno)
+        ok = s.copy().assume(z3.Not(v.t.dt.is_none(v.z)))
+        return [X.Res(bad, exc='TypeError', node=e)] + b_len(ex, [SV(v.t.t, v.t.dt.v(v.z))], ok, e)
     raise Unbound('len of %s' % v.t)
 
 
